@@ -592,4 +592,21 @@ def const_fold(e, consts=None, depth=0):
         return out
     if isinstance(e, ast.Call) and dotted(e.func) == "len" and len(e.args) == 1:
         return len(const_fold(e.args[0], consts, depth + 1))
+    if isinstance(e, ast.Subscript):
+        seq = const_fold(e.value, consts, depth + 1)
+        if isinstance(seq, (tuple, list, str)):
+            sl = e.slice
+            if isinstance(sl, ast.Slice):
+                lo = None if sl.lower is None else const_fold(sl.lower, consts, depth + 1)
+                hi = None if sl.upper is None else const_fold(sl.upper, consts, depth + 1)
+                st = None if sl.step is None else const_fold(sl.step, consts, depth + 1)
+                if all(x is None or (isinstance(x, int) and not isinstance(x, bool)) for x in (lo, hi, st)):
+                    return seq[lo:hi:st]
+            else:
+                i = const_fold(sl, consts, depth + 1)
+                if isinstance(i, int) and not isinstance(i, bool) and -len(seq) <= i < len(seq):
+                    return seq[i]
+    if isinstance(e, ast.Call) and dotted(e.func) in ("tuple", "list") and len(e.args) == 1 and not e.keywords:
+        v = const_fold(e.args[0], consts, depth + 1)
+        return tuple(v) if dotted(e.func) == "tuple" else list(v)
     raise ValueError(f"not constant: {ast.dump(e)[:60]}")
